@@ -202,7 +202,7 @@ SAME = [
     ('reassociated product', 'def f(b, n, c):\n    return len(b) - 4 * n * len(c)', 'def f(b, n, c):\n    return len(b) - len(c) * n * 4'),
     ('independent tests nested the other way', 'def f(a, b):\n    if a.x:\n        if b.y:\n            return 1\n        return 2\n    if b.y:\n        return 3\n    return 4', 'def f(a, b):\n    if b.y:\n        if a.x:\n            return 1\n        return 3\n    if a.x:\n        return 2\n    return 4'),
     ('default literal and early return', "def f(self):\n    r = b''\n    if self.h:\n        r = self.g()\n    return r", "def f(self):\n    if not self.h:\n        return b''\n    return self.g()"),
-    ('attribute default then override', 'def f(self, t):\n    self.m = None\n    if t:\n        self.m = t.x\n    self.n = 1', 'def f(self, t):\n    self.m = t.x if t else None\n    self.n = 1'),
+    ('attribute default then override', 'def f(self, t, u):\n    self.m = None\n    if t:\n        self.m = u.x\n    self.n = 1', 'def f(self, t, u):\n    self.m = u.x if t else None\n    self.n = 1'),
     ('percent tuple is an f-string', "def f(a, b):\n    return 'x %s y %r' % (a, b)", "def f(a, b):\n    return f'x {a!s} y {b!r}'"),
     ('independent state updates in another order', 'def f(self, n):\n    self._in = True\n    self._can.append(True)\n    self._stk.append(n)', 'def f(self, n):\n    self._stk.append(n)\n    self._in = True\n    self._can.append(True)'),
     ('test repeated after an unrelated assignment', 'def f(self):\n    if self.z:\n        self.a = self.b\n    if not self.z and not self.q():\n        g()', 'def f(self):\n    if self.z:\n        self.a = self.b\n    elif not self.q():\n        g()'),
